@@ -5,6 +5,7 @@ All theorems are about the table-driven model instantiated with the GENERATED re
 -/
 import ScpiVerif.Model.Regs
 import ScpiVerif.Lemmas.Regs
+import ScpiVerif.Lemmas.RegsStb
 
 namespace ScpiVerif.Props.C11
 open ScpiVerif ScpiVerif.Regs
@@ -38,5 +39,135 @@ theorem coherent_reachable (cap : Nat) (hcap : 1 ≤ cap) (ops : List Op) (hops 
 example : Coherent ([Op.set ESR 0x20, .set ESE 0x20, .errPush (-100), .set SRE 0x24, .errPop, .esrQ].foldl step (St.init 2)) := by
   decide
 example : get ([Op.set ESR 0x20, .set ESE 0x20].foldl step (St.init 2)) STB = 0x20#16 := by decide
+
+/-! ### Application-owned status-byte bits
+
+`Op.ok` excludes every write to the status byte itself.  The application owns bits 0, 1 and 4 (MAV) of it and
+handles them with SCPI_RegSetBits / SCPI_RegClearBits / SCPI_RegSet on SCPI_REG_STB.  The theorems below extend the
+histories to such writes: any value may be written as long as the four library-owned summary bits stay as they
+are in the state the write is applied to.  Bits 0, 1, 4, bit 6 (MSS, recomputed by SCPI_RegSet) and bits 8..15 of
+the 16-bit register are free. -/
+
+/-- the library-owned summary bits of the status byte: QMA, QES, ESB, OPS (from the generated constants) -/
+def summaryMask : Reg := bit Gen.STB_QMA ||| bit Gen.STB_QES ||| bit Gen.STB_ESR ||| bit Gen.STB_OPS
+
+theorem summaryMask_eq : summaryMask = 0xAC#16 := by decide
+
+/-- operations of the wider histories: everything `Op.ok` allows, plus writes to the status byte that leave the
+summary bits as they are in the state `s` they are applied to:
+`set` — the value has the summary bits of the current status byte;
+`setBits` — the summary bits among the bits to set are already set;
+`clearBits` — none of the summary bits among the bits to clear is set.
+(For each of the three this is exactly "the write leaves the summary bits as they are", see `coherent_stb_write_iff`.) -/
+def _root_.ScpiVerif.Regs.Op.okIn (s : St) : Op → Bool
+  | .set n v => n != STB || (v &&& summaryMask) == (get s STB &&& summaryMask)
+  | .setBits n v => n != STB || ((v &&& summaryMask) &&& ~~~(get s STB)) == 0
+  | .clearBits n v => n != STB || ((v &&& summaryMask) &&& get s STB) == 0
+  | _ => true
+
+/-- every operation of the narrower histories is one of the wider ones, in any state -/
+theorem okIn_of_ok (s : St) (op : Op) (h : op.ok = true) : op.okIn s = true := by
+  cases op <;> simp_all [Op.ok, Op.okIn]
+
+/-- one-step preservation for the wider histories, for all 16-bit values -/
+theorem coherent_step_app (s : St) (op : Op) (hwf : WF s) (hc : Coherent s) (hop : op.okIn s = true) :
+    Coherent (step s op) := by
+  have L := Lemmas.Regs.wfLen hwf
+  cases op with
+  | set n v =>
+    by_cases hn : n = STB
+    · subst hn
+      have h : v &&& summaryMask = get s STB &&& summaryMask := by simpa [Op.okIn] using hop
+      rw [summaryMask_eq] at h
+      exact Lemmas.RegsStb.coherent_set_stb s v L hc h
+    · exact coherent_step s _ hwf hc (by simpa [Op.ok] using hn)
+  | setBits n v =>
+    by_cases hn : n = STB
+    · subst hn
+      have h : (v &&& summaryMask) &&& ~~~(get s STB) = 0 := by simpa [Op.okIn] using hop
+      rw [summaryMask_eq] at h
+      exact (Lemmas.RegsStb.coherent_setBits_stb_iff s v L hc).2 h
+    · exact coherent_step s _ hwf hc (by simpa [Op.ok] using hn)
+  | clearBits n v =>
+    by_cases hn : n = STB
+    · subst hn
+      have h : (v &&& summaryMask) &&& get s STB = 0 := by simpa [Op.okIn] using hop
+      rw [summaryMask_eq] at h
+      exact (Lemmas.RegsStb.coherent_clearBits_stb_iff s v L hc).2 h
+    · exact coherent_step s _ hwf hc (by simpa [Op.ok] using hn)
+  | _ => exact coherent_step s _ hwf hc rfl
+
+/-- the condition of `Op.okIn` on status-byte writes cannot be weakened: in a coherent state a write to the status
+byte keeps the state coherent exactly when `Op.okIn` allows it -/
+theorem coherent_stb_write_iff (s : St) (v : Reg) (hwf : WF s) (hc : Coherent s) :
+    (Coherent (step s (.set STB v)) ↔ (Op.set STB v).okIn s = true) ∧
+    (Coherent (step s (.setBits STB v)) ↔ (Op.setBits STB v).okIn s = true) ∧
+    (Coherent (step s (.clearBits STB v)) ↔ (Op.clearBits STB v).okIn s = true) := by
+  have L := Lemmas.Regs.wfLen hwf
+  refine ⟨?_, ?_, ?_⟩
+  · refine (Lemmas.RegsStb.coherent_regSet_stb_iff s v L hc).trans ?_
+    simp [Op.okIn, summaryMask_eq]
+  · refine (Lemmas.RegsStb.coherent_setBits_stb_iff s v L hc).trans ?_
+    simp [Op.okIn, summaryMask_eq]
+  · refine (Lemmas.RegsStb.coherent_clearBits_stb_iff s v L hc).trans ?_
+    simp [Op.okIn, summaryMask_eq]
+
+/-- what a direct SCPI_RegSet leaves in the status byte of a coherent state: the written value with bit 6 (MSS)
+recomputed from the other bits and SRE, whatever bit 6 of the written value was -/
+theorem stb_after_set (s : St) (v : Reg) (hwf : WF s) (hc : Coherent s) :
+    get (step s (.set STB v)) STB =
+      if (v &&& ~~~bit Gen.STB_SRQ) &&& (get s SRE &&& ~~~bit Gen.STB_SRQ) ≠ 0 then v ||| bit Gen.STB_SRQ
+      else v &&& ~~~bit Gen.STB_SRQ :=
+  (Lemmas.RegsStb.regSet_stb_value s v (Lemmas.Regs.wfLen hwf) hc).1
+
+/-- every operation of the history is allowed by `Op.okIn` in the state it is applied to -/
+def OkHist : St → List Op → Prop
+  | _, [] => True
+  | s, op :: ops => op.okIn s = true ∧ OkHist (step s op) ops
+
+instance instDecidableOkHist : (s : St) → (ops : List Op) → Decidable (OkHist s ops)
+  | _, [] => isTrue trivial
+  | s, op :: ops =>
+    have := instDecidableOkHist (step s op) ops
+    inferInstanceAs (Decidable (op.okIn s = true ∧ OkHist (step s op) ops))
+
+/-- the histories of `coherent_reachable` are histories of `coherent_reachable_app`, from any state -/
+theorem okHist_of_ok (s : St) (ops : List Op) (h : ∀ op ∈ ops, op.ok = true) : OkHist s ops := by
+  induction ops generalizing s with
+  | nil => trivial
+  | cons op ops ih =>
+    exact ⟨okIn_of_ok s op (h op (by simp)), ih (step s op) (fun o ho => h o (by simp [ho]))⟩
+
+/-- Full statement for the wider histories: every state reachable from the initial state by any history of the
+operations of `coherent_reachable` and of application writes to the status byte that keep the summary bits is
+coherent. -/
+theorem coherent_reachable_app (cap : Nat) (hcap : 1 ≤ cap) (ops : List Op) (hops : OkHist (St.init cap) ops) :
+    Coherent (ops.foldl step (St.init cap)) := by
+  suffices h : ∀ (s : St), WF s → Coherent s → OkHist s ops → Coherent (ops.foldl step s) from
+    h _ (wf_init cap hcap) (coherent_init cap) hops
+  clear hops
+  induction ops with
+  | nil => intro s _ hc _; simpa using hc
+  | cons op ops ih =>
+    intro s hwf hc hh
+    exact ih (step s op) (wf_step s op hwf) (coherent_step_app s op hwf hc hh.1) hh.2
+
+-- non-vacuity: MAV enabled in SRE and set by the application, then the status byte rewritten with bit 6 cleared by
+-- the caller: bit 6 comes back (0x50)
+example : OkHist (St.init 2) [Op.set SRE 0x10, .setBits STB 0x10, .set STB 0x10] := by decide
+example : get ([Op.set SRE 0x10, .setBits STB 0x10, .set STB 0x10].foldl step (St.init 2)) STB = 0x50#16 := by decide
+example : Coherent ([Op.set SRE 0x10, .setBits STB 0x10, .set STB 0x10].foldl step (St.init 2)) := by decide
+-- bit 6 passed as 1 while no enabled bit is set: it comes out 0
+example : OkHist (St.init 2) [Op.set SRE 0x02, .set STB 0x51] ∧
+    get ([Op.set SRE 0x02, .set STB 0x51].foldl step (St.init 2)) STB = 0x11#16 := by decide
+-- summary bits next to application bits, SRE and the status byte with bits above 7, MAV cleared again
+example : OkHist (St.init 2) [Op.errPush (-100), .set SRE 0x8110, .set STB 0x8115, .clearBits STB 0x8010, .setBits STB 0x0004,
+      .clearBits STB 0x0100] ∧
+    (([Op.errPush (-100), .set SRE 0x8110, .set STB 0x8115].foldl step (St.init 2)).regs.take 2 = [0x8155#16, 0x8110#16]) ∧
+    get ([Op.errPush (-100), .set SRE 0x8110, .set STB 0x8115, .clearBits STB 0x8010, .setBits STB 0x0004,
+      .clearBits STB 0x0100].foldl step (St.init 2)) STB = 0x0005#16 := by decide
+-- writes that touch a summary bit are not allowed
+example : ¬ OkHist (St.init 2) [Op.setBits STB 0x04] ∧ ¬ OkHist (St.init 2) [Op.errPush (-100), .clearBits STB 0x04] ∧
+    ¬ OkHist (St.init 2) [Op.errPush (-100), .set STB 0x10] := by decide
 
 end ScpiVerif.Props.C11
